@@ -128,6 +128,21 @@ pub trait Property: Sync {
 }
 
 // ---------------------------------------------------------------------------------------------
+// active generator features, visible to checks (scan-level domain predicates)
+// ---------------------------------------------------------------------------------------------
+
+static ACTIVE_FEATURES: std::sync::OnceLock<Features> = std::sync::OnceLock::new();
+
+pub fn set_active_features(f: &Features) {
+    let _ = ACTIVE_FEATURES.set(f.clone());
+}
+
+/// In replay / single-case mode nothing is set and every feature counts as on (strict judgement).
+pub fn feature_on(name: &str) -> bool {
+    ACTIVE_FEATURES.get().map(|f| f.on(name)).unwrap_or(true)
+}
+
+// ---------------------------------------------------------------------------------------------
 // panic capture
 // ---------------------------------------------------------------------------------------------
 
@@ -396,6 +411,7 @@ pub fn eval_case<P: Property>(p: &P, case: &P::Case, stats: &mut Stats) -> Verdi
 pub fn run_worker<P: Property>(p: &P, cfg: &WorkerCfg) -> WorkerResult {
     let start = Instant::now();
     let res = WorkerResult::default();
+    set_active_features(&cfg.features);
     let strategy = p.strategy(&cfg.features, cfg.tier);
     let config = Config {
         cases: cfg.cases as u32,
